@@ -867,7 +867,13 @@ impl<C: Config, Q: Query> Snapshot<C, Q> {
         clean_existing_forward_edges: bool,
         mut tx: WriteTransaction<C>,
     ) {
+        #[cfg(feature = "verif_hooks")]
+        crate::engine::verif::yield_point("set_computed::before_upgrade").await;
+
         self.upgrade_to_exclusive().await;
+
+        #[cfg(feature = "verif_hooks")]
+        crate::engine::verif::yield_point("set_computed::after_upgrade").await;
 
         let query_value_fingerprint = query_value_fingerprint
             .unwrap_or_else(|| self.engine().hash(&query_value));
@@ -940,6 +946,9 @@ impl<C: Config, Q: Query> Snapshot<C, Q> {
                 }
             }
 
+            #[cfg(feature = "verif_hooks")]
+            crate::engine::verif::yield_point("set_computed::after_unwire").await;
+
             // set pending backward projection if needed
             if has_pending_backward_projection {
                 self.engine()
@@ -1001,6 +1010,9 @@ impl<C: Config, Q: Query> Snapshot<C, Q> {
                     }
                 }
             }
+
+            #[cfg(feature = "verif_hooks")]
+            crate::engine::verif::yield_point("set_computed::after_rewire").await;
 
             self.engine()
                 .computation_graph
@@ -1177,6 +1189,10 @@ impl<C: Config, Q: Query> Snapshot<C, Q> {
         let mut tx = self.engine().new_write_transaction();
         let engine = self.engine().clone();
         let query_id = *self.query_id();
+
+        #[cfg(feature = "verif_hooks")]
+        crate::engine::verif::yield_point("backward_projection::before_upgrade")
+            .await;
 
         self.upgrade_to_exclusive().await;
 
